@@ -26,6 +26,7 @@ structure Closed (P : St → Prop) : Prop where
   misc : ∀ st (now timeout maxIdle : Nat) (res dirty : List Nat), P st →
     P { st with now := now, timeout := timeout, maxIdle := maxIdle, resAlive := res, dirty := dirty }
   teardownEnd : ∀ st, P st → P { (st.freeObjs st.ctxObjs) with ctxObjs := [], resAlive := [], freed := true }
+  newOwned : ∀ st, P st → P st.newOwned
 
 namespace Closed
 variable {P : St → Prop} (c : Closed P)
@@ -476,6 +477,7 @@ theorem Closed.step {P : St → Prop} (c : Closed P) {st : St} (h : P st) (e : E
     | ioStale d => exact c.prepareIoAt h _
     | setMaxIdle n => exact c.misc st st.now st.timeout n st.resAlive st.dirty h
     | setTimeout n => exact c.misc st st.now n st.maxIdle st.resAlive st.dirty h
+    | ownClient k => exact c.newOwned st h
     | freeContext =>
       dsimp only
       apply c.teardownEnd
@@ -1177,6 +1179,18 @@ structure Inv (st : St) : Prop where
 theorem HInv.addPartial {st : St} (h : HInv st) (sid : Nat) : HInv (st.addPartial sid) :=
   ⟨h.ref, h.live, fun t ht => Nat.lt_succ_of_lt (h.fresh t ht)⟩
 
+theorem LInv.newOwned {st : St} (h : LInv st) : LInv st.newOwned := by
+  refine LInv.alloc (st := st) h st.next rfl ?_
+  intro i
+  rw [objects_count, objects_count]
+  have e1 : st.newOwned.sids = st.sids := rfl
+  have e2 : st.newOwned.allocHids = st.allocHids := rfl
+  have e3 : st.newOwned.ctxObjs = st.ctxObjs ++ [st.next] := rfl
+  have e4 : st.newOwned.partialIds = st.partialIds := rfl
+  rw [e1, e2, e3, e4, List.count_append]
+  simp only [List.count_cons, List.count_nil, beq_iff_eq]
+  omega
+
 theorem Inv.closed : Closed Inv where
   benign st sid f h hf :=
     ⟨h.H.updSess_benign sid f (fun s => ⟨(hf s).1, (hf s).2.1⟩), h.S.updSess sid f (fun s => ⟨(hf s).1, (hf s).2.2⟩),
@@ -1201,6 +1215,9 @@ theorem Inv.closed : Closed Inv where
     ⟨h.H.congr rfl rfl rfl, h.S.same rfl rfl rfl (Nat.le_refl _), h.L.same rfl rfl rfl rfl rfl, h.P.same rfl rfl⟩
   teardownEnd st h :=
     ⟨h.H.congr rfl rfl rfl, h.S.same rfl rfl rfl (Nat.le_refl _), h.L.teardownEnd, h.P.same rfl rfl⟩
+  newOwned st h :=
+    ⟨⟨h.H.ref, h.H.live, fun t ht => Nat.lt_succ_of_lt (h.H.fresh t ht)⟩, h.S.same rfl rfl rfl (Nat.le_succ _),
+     h.L.newOwned, h.P.same rfl rfl⟩
 
 theorem runLedger_allocs (l : List Nat) : ∀ live, runLedger (l.map .alloc) live = some (l.reverse ++ live) := by
   induction l with
